@@ -267,6 +267,116 @@ class CopyNative(Contract):
         return None
 
 
+class GroupCopyNative(Contract):
+    """Bounded stand-in: a drillhole group copied inside its workspace and into another workspace
+    equals its source hole by hole (names, collars, every data set's values -- also for data names
+    containing a slash, which the file stores under a substitute character) and leaves the source
+    group's stored arrays unchanged."""
+    target = "geoh5py/shared/concatenation/concatenator.py::Concatenator.copy"
+    variant = "native"
+    symbolic = False
+    has_native = True
+    props = ("C12", "C09")
+    bounded_scope = "a drillhole group with 2 holes, depth logs named 'Au', 'Cu/Zn' and 'my_log/' (one hole lacks one of them) a text log and an interval table ('Pb/Zn', 'Ag') in a property group; copied to {same workspace, another workspace}, cache {warm, cold after a re-open, the creating session}; format versions 2.0 / 2.1 and ga_version 4.2"
+
+    def native_cases(self, tier, rng):
+        for target in ("same", "other-ws"):
+            for cache in ("warm", "cold", "creating-session"):
+                for version, ga in ((2.0, None), (2.1, None), (2.0, "4.2")):
+                    yield {"target": target, "cache": cache, "version": version, "ga_version": ga}
+
+    @staticmethod
+    def _snap(group):
+        out = {}
+        for h in sorted(group.children, key=lambda c: c.name):
+            if not type(h).__name__.endswith("Drillhole"):
+                continue
+            datas = {}
+            # concatenated holes load their data on demand: ask by name, do not rely on the child list
+            for name in sorted(h.get_data_list()):
+                got = h.get_data(name)
+                v = got[0].values if got else None
+                datas[name] = None if v is None else np.asarray(v).tolist()
+            out[h.name] = {"collar": [float(h.collar[k]) for k in ("x", "y", "z")], "data": datas,
+                           "groups": {pg.name: len(pg.properties or []) for pg in (h.property_groups or [])}}
+        return out
+
+    def native_check(self, case):
+        from geoh5py.groups import DrillholeGroup
+        from geoh5py.objects import Drillhole
+        from geoh5py.workspace import Workspace
+
+        d = tempfile.mkdtemp()
+        try:
+            src_path, dst_path = os.path.join(d, "src.geoh5"), os.path.join(d, "dst.geoh5")
+            kw = {"ga_version": case["ga_version"]} if case.get("ga_version") else {}
+            with Workspace.create(src_path, version=case["version"], **kw) as ws:
+                g = DrillholeGroup.create(ws, name="campaign")
+                for k in range(2):
+                    h = Drillhole.create(ws, name=f"H{k}", parent=g, collar=np.r_[float(k), 1.0, 2.0], surveys=np.c_[np.r_[0.0, 10.0], np.zeros(2), np.ones(2) * -90.0])
+                    dep = np.array([1.0, 2.0, 3.0])
+                    h.add_data({"Au": {"depth": dep, "values": np.arange(3.0) + 10 * k}})
+                    h.add_data({"Cu/Zn": {"depth": dep, "values": np.arange(3.0) + 100 + 10 * k}})
+                    if k == 0:
+                        h.add_data({"my_log/": {"depth": dep, "values": np.arange(3.0) + 200}})
+                    h.add_data({"lith": {"depth": dep, "values": np.array(["a", "bb", "ccc"]), "type": "text"}})
+                    ft = np.c_[np.arange(4.0), np.arange(4.0) + 1]
+                    h.add_data({"Pb/Zn": {"from-to": ft, "values": np.arange(4.0) / 4 + k}, "Ag": {"from-to": ft, "values": np.arange(4.0) + 50 * k}}, property_group="assays")
+                if case["cache"] == "creating-session":
+                    # copy straight away, in the session that created the group
+                    dst = None
+                    try:
+                        ref = self._snap(g)
+                        if case["target"] == "same":
+                            new = g.copy(name="campaign copy")
+                        else:
+                            dst = Workspace.create(dst_path, version=case["version"], **kw)
+                            new = g.copy(parent=dst)
+                        got = self._snap(new)
+                        if got != ref or self._snap(g) != ref:
+                            bad = next((f"hole {h}: {k} {got.get(h, {}).get('data', {}).get(k)!r} vs {v!r}" for h, hv in ref.items() for k, v in hv["data"].items() if got.get(h, {}).get("data", {}).get(k) != v), "hole list, collars or the source differ")
+                            return f"the copied group differs from its source: {bad} ({case})"
+                    finally:
+                        if dst is not None:
+                            dst.close()
+                    return None
+            before_digest = _digest(src_path)
+            ws = Workspace(src_path, mode="r+")
+            dst = None
+            try:
+                g = ws.get_entity("campaign")[0]
+                if case["cache"] == "warm":
+                    ref = self._snap(g)
+                if case["target"] == "same":
+                    new = g.copy(name="campaign copy")
+                else:
+                    dst = Workspace.create(dst_path, version=case["version"], **kw)
+                    new = g.copy(parent=dst)
+                ref = self._snap(g)
+                if not all(len(hv["data"]) >= 5 for hv in ref.values()):
+                    return f"harness: the source snapshot is incomplete ({ {h: sorted(v['data']) for h, v in ref.items()} })"
+                got = self._snap(new)
+                if got != ref:
+                    bad = next((f"hole {h}: {k} {got.get(h, {}).get('data', {}).get(k)!r} vs {v!r}" for h, hv in ref.items() for k, v in hv["data"].items() if got.get(h, {}).get("data", {}).get(k) != v), "hole list or collars differ")
+                    return f"the copied group differs from its source: {bad} ({case})"
+            finally:
+                if dst is not None:
+                    dst.close()
+                ws.close()
+            if case["target"] == "other-ws":
+                after = _digest(src_path)
+                changed = sorted(k for k in before_digest if after.get(k) != before_digest[k]) + sorted(set(after) - set(before_digest))
+                if changed:
+                    return f"copying the group into another workspace changed the source file at {changed[:3]} ({case})"
+                with Workspace(dst_path, mode="r") as back:
+                    got = self._snap(back.get_entity("campaign")[0])
+                if got != ref:
+                    return f"the re-opened copy differs from its source ({case})"
+        finally:
+            shutil.rmtree(d, ignore_errors=True)
+        return None
+
+
 class GridCopyTargets(ObjectCopyTargets):
     target = "geoh5py/objects/grid_object.py::GridObject.copy"
 
@@ -289,4 +399,4 @@ class CellCopyTargets(ObjectCopyTargets):
         return args, kw
 
 
-CONTRACTS = [CopyPropertyGroups, ObjectCopyTargets, CopyNative]  # Grid/Cell variants: path explosion / different shape, left to the native part
+CONTRACTS = [CopyPropertyGroups, ObjectCopyTargets, CopyNative, GroupCopyNative]  # Grid/Cell variants: path explosion / different shape, left to the native part
